@@ -90,7 +90,7 @@ func init() {
 	R("(*context.cancelCtx).Err", func(m *Machine, a []Value) Value {
 		o := (*(a[0].(Ptr))).(*Opaque)
 		if o.X.(*Chan).Closed {
-			return m.errorValue("context canceled")
+			return m.ctxCanceledErr(false)
 		}
 		return Iface{}
 	})
@@ -123,4 +123,23 @@ func init() {
 		m.setResult(fr, in, nil)
 	}
 	visibleIntrinsics["(*time.Ticker).Stop"] = true
+}
+
+
+// ctxCanceledErr: the context.Canceled sentinel of this machine (so that errors.Is recognises it), bare
+// (Context.Err) or wrapped the way net/http's client returns it
+func (m *Machine) ctxCanceledErr(wrapped bool) Value {
+	var sentinel Value = m.errorValue("context canceled")
+	if cp := m.prog.ImportedPackage("context"); cp != nil {
+		if gv, ok := cp.Members["Canceled"].(*ssa.Global); ok {
+			sentinel = *m.global(gv)
+		}
+	}
+	if !wrapped {
+		return sentinel
+	}
+	if fp := m.prog.ImportedPackage("fmt"); fp != nil && fp.Type("wrapError") != nil {
+		return Iface{T: ptrTo(fp.Type("wrapError").Type()), V: newCell(Struct{"Post: context canceled", sentinel})}
+	}
+	return sentinel
 }
